@@ -59,10 +59,10 @@ class Agg:
 
 class EnumV:
     """enum value: variant name if known, discriminant (python int or I), payload per variant"""
-    __slots__ = ("ty", "variant", "discr", "payload")
+    __slots__ = ("ty", "variant", "discr", "payload", "upvars")
 
-    def __init__(self, ty, variant=None, discr=None, payload=None):
-        self.ty, self.variant, self.discr, self.payload = ty, variant, discr, payload or {}
+    def __init__(self, ty, variant=None, discr=None, payload=None, upvars=None):
+        self.ty, self.variant, self.discr, self.payload, self.upvars = ty, variant, discr, payload or {}, upvars
 
 
 class Bytes:
@@ -90,6 +90,15 @@ class Opaque:
 
     def __init__(self, name, ty=None):
         self.name, self.ty, self.children = name, ty, {}
+
+
+class MapV:
+    """finite map / set model: list of [present: z3 Bool, key, value] entries, keys pairwise
+    distinct among present entries (maintained by insert)"""
+    __slots__ = ("entries", "name")
+
+    def __init__(self, name, entries=None):
+        self.name, self.entries = name, [list(e) for e in (entries or [])]
 
 
 UNIT = Agg("tuple", "()", [])
@@ -176,6 +185,7 @@ class Executor:
         self.models = models or []
         self.stats = dict(paths=0, forks=0, solver_checks=0, solver_time=0.0, unsupported=0)
         self.on_call = None  # hook(state, callee, args) -> None | value
+        self.coroutine_bodies = {}
         self.index = {}
         for name, bl in bodies.items():
             for b in bl:
@@ -322,8 +332,15 @@ class Executor:
             idx, ty = el[1], el[2] if len(el) > 2 else None
             if isinstance(v, Agg):
                 if idx >= len(v.fields):
-                    raise Unsupported("field %d of %s(%d)" % (idx, v.name, len(v.fields)))
+                    if v.kind != "variant":
+                        raise Unsupported("field %d of %s(%d)" % (idx, v.name, len(v.fields)))
+                    while len(v.fields) <= idx:
+                        v.fields.append(None)
+                if v.fields[idx] is None:
+                    v.fields[idx] = self.fresh_value(ty, "%s.%d!%d" % (v.name, idx, next(self.fresh_counter)))
                 return v.fields[idx]
+            if isinstance(v, EnumV) and v.upvars is not None:
+                return v.upvars[idx]
             if isinstance(v, Opaque):
                 key = ("f", idx)
                 if key not in v.children:
@@ -335,7 +352,7 @@ class Executor:
         if el[0] == "dc":
             if isinstance(v, EnumV):
                 if el[1] not in v.payload:
-                    v.payload[el[1]] = Opaque("%s.%s" % (name_hint, el[1]), None)
+                    v.payload[el[1]] = Agg("variant", el[1], [])
                 return v.payload[el[1]]
             if isinstance(v, Opaque):
                 key = ("dc", el[1])
@@ -383,6 +400,8 @@ class Executor:
                 v.fields[el[1]] = val
             elif isinstance(v, Opaque):
                 v.children[("f", el[1])] = val
+            elif isinstance(v, EnumV) and v.upvars is not None:
+                v.upvars[el[1]] = val
             else:
                 raise Unsupported("set field of %s" % type(v).__name__)
         elif el[0] == "i":
@@ -427,6 +446,13 @@ class Executor:
             return const_int(ord(m.group(1)), "char")
         if t.startswith('"') or t.startswith('b"'):
             return Opaque("str:" + t[:40], "&str")
+        pm = re.search(r"::(promoted\[\d+\])$", t)
+        if pm and st is not None and st.frames:
+            b = self.consts.get(st.frames[-1].body.name + "::" + pm.group(1))
+            if b is not None:
+                v = self.run_const(b)
+                if v is not None:
+                    return v
         # named constant with a body in the dump
         for key in (t, re.sub(r"^<(.*) as .*>::", r"\1::", t)):
             b = self.consts.get(key)
@@ -448,6 +474,28 @@ class Executor:
                 return I(bv((1 << (w - 1)) - 1 if s else (1 << w) - 1, w), s)
             return I(bv(-(1 << (w - 1)) if s else 0, w), s)
         return Opaque("const:" + t[:80], None)
+
+    def run_const(self, b):
+        """evaluate a straight-line constant body (promoteds like `&SlipType::Bound`)"""
+        try:
+            st = State()
+            fr = Frame(b, 0)
+            st.frames.append(fr)
+            bb = "bb0"
+            for _ in range(8):
+                blk = b.blocks[bb]
+                for stt in blk.stmts:
+                    self.exec_stmt(st, stt)
+                if blk.term[0] == "return":
+                    c = fr.locals.get("_0")
+                    return c.v if c is not None else None
+                if blk.term[0] == "goto":
+                    bb = blk.term[1]
+                    continue
+                return None
+        except (Unsupported, PathEnd, KeyError):
+            return None
+        return None
 
     def const_body_value(self, b):
         """constant bodies of the form `_0 = const N_ty;` (possibly through one temp)"""
@@ -695,7 +743,7 @@ class Executor:
         if isinstance(v, Seq):
             return Seq([self.copy_value(x) for x in v.items], v.elem_ty)
         if isinstance(v, EnumV):
-            return EnumV(v.ty, v.variant, v.discr, dict((k, self.copy_value(p)) for k, p in v.payload.items()))
+            return EnumV(v.ty, v.variant, v.discr, dict((k, self.copy_value(p)) for k, p in v.payload.items()), None if v.upvars is None else [self.copy_value(x) for x in v.upvars])
         if isinstance(v, Opaque):
             return v  # opaque values are immutable blobs; children are memoised facts about them
         return v
@@ -814,7 +862,11 @@ class Executor:
             v = self.eval_rvalue(st, stt[2], dest_ty)
             self.write_place(st, stt[1], v)
         elif k == "setdiscr":
-            raise Unsupported("SetDiscriminant")
+            v = self.read_place(st, stt[1])
+            if isinstance(v, EnumV):
+                v.discr, v.variant = int(stt[2]), None
+            else:
+                raise Unsupported("SetDiscriminant on %s" % type(v).__name__)
         elif k == "assume":
             v = self.eval_operand(st, stt[1])
             if isinstance(v, z3.BoolRef):
